@@ -22,10 +22,17 @@ def _pipe(pid, nq, nt):
     return {"harness": "h_stream", "comp": "pipe", "n_quick": nq, "n_thorough": nt, "timeout": 3000, "why": _PIPE_WHY[pid]}
 
 
+def condmerge_job(nq=6000, nt=300000):
+    return {"harness": "h_stream", "comp": "condmerge", "n_quick": nq, "n_thorough": nt,
+            "why": "processor.RunnableProcessor.Process (condition merge, used by both engines) differs from the model condMerge that is proved "
+                   "aligned and panic-free for every match pattern and plugin output length (C09_v1_cond_merge_aligned): a pass-through record "
+                   "slides into the slot of a record without a result (written under the wrong position / twice, C05, C08)"}
+
+
 JOBS = {
     "C01": [_pipe("C01", 500, 8000)],
     "C04": [_pipe("C04", 400, 6000)],
-    "C05": [_pipe("C05", 400, 6000)],
+    "C05": [_pipe("C05", 400, 6000), condmerge_job(4000, 150000)],
     "C07": [_pipe("C07", 400, 6000)],
     "C09": [
         {"harness": "h_stream", "comp": "condmerge", "n_quick": 6000, "n_thorough": 300000,
@@ -38,7 +45,7 @@ JOBS = {
 LEAN_MODULES = {
     "C01": ["ConduitModel.Props.C01Stream", "ConduitModel.Facts.Stream"],
     "C04": ["ConduitModel.Props.C04Stream", "ConduitModel.Facts.Stream"],
-    "C05": ["ConduitModel.Props.C05Stream", "ConduitModel.Facts.Stream"],
+    "C05": ["ConduitModel.Props.C05Stream", "ConduitModel.Props.C09Stream", "ConduitModel.Facts.Stream"],
     "C07": ["ConduitModel.Props.C07Stream", "ConduitModel.Facts.Stream"],
     "C09": ["ConduitModel.Props.C09Stream", "ConduitModel.Facts.Stream"],
 }
